@@ -813,7 +813,7 @@ def check_decode_and_errors(ctx, c_app, deep):
 
 def check_channel_update(ctx, c_app, deep):
     """the "Channel update (BP)" box of the menu: /decode with the box ticked / unticked must return what the library
-    BP-OSD decoder returns with channel_update=True / False (defect repaired by the PENDING fix: the box was ignored)"""
+    BP-OSD decoder returns with channel_update=True / False (defect repaired by fix a7fdabc: the box was ignored)"""
     import panqec.gui._gui as G
     from panqec.error_models import PauliErrorModel
     from panqec.decoders import BeliefPropagationOSDDecoder
